@@ -23,6 +23,40 @@ class HarnessError(Exception):
     """The harness itself is wrong (target missing, stand-in misuse...).  Never a finding."""
 
 
+class HarnessTargetMissing(HarnessError):
+    """the harness reached for an internal name (private attribute, private signature) that the tree under test no longer has:
+    no verdict on the property - inconclusive, never a finding"""
+
+
+_HERE = os.path.dirname(os.path.dirname(os.path.abspath(__file__)))
+
+
+def is_harness_fault(e):
+    if not isinstance(e, (AttributeError, NameError, ImportError, TypeError)):
+        return False
+    tb = e.__traceback__
+    while tb is not None and tb.tb_next is not None:
+        tb = tb.tb_next
+    if tb is None or not tb.tb_frame.f_code.co_filename.startswith(_HERE + os.sep):
+        return False                      # raised inside the code under test (or the standard library): a real failure
+    if isinstance(e, AttributeError):
+        obj = getattr(e, "obj", None)
+        mod = getattr(type(obj), "__module__", "") or ""
+        return bool(mod.startswith("bromelia") or isinstance(obj, type(os)) or (isinstance(obj, type) and obj.__module__.startswith("bromelia")))
+    if isinstance(e, TypeError):
+        return "argument" in str(e) or "positional" in str(e)      # a private signature changed under the harness
+    return True
+
+
+def reraise_if_harness(e):
+    """first statement of every broad `except` in a harness: an exception that is the harness's own (see is_harness_fault) must
+    not be mistaken for behaviour of the code under test"""
+    if isinstance(e, HarnessError):
+        raise e
+    if is_harness_fault(e):
+        raise HarnessTargetMissing(f"{type(e).__name__}: {e}") from e
+
+
 def reached():
     """Marks the point where the property assertion is evaluated."""
     if MODE == "reach":
